@@ -99,7 +99,7 @@ def main():
           for pid in sorted(P) if pid not in CLAIMED]
     m = {
         "version": 1,
-        "setup_cmd": "cd /verif/harness && CARGO_NET_OFFLINE=true cargo build --offline --profile checked --bin vcheck",
+        "setup_cmd": "cd /verif/harness && CARGO_NET_OFFLINE=true cargo build --offline --profile checked --bin vcheck && CARGO_NET_OFFLINE=true cargo build --offline --release --bin vcheck",
         "hooks": {
             "guard": "cargo feature `verif-hooks` on crate insim (off by default)",
             "enable": "the harness crate /verif/harness depends on /repo/insim by path with features=[\"verif-hooks\"]",
